@@ -65,10 +65,11 @@ void rt_main(void* arg) {
   const harness_t* H = rt_harness();
   rt_install_quiescence();
   if (fiber_manager_init((size_t)g_case.threads) != FIBER_SUCCESS) vs_violation("engine_limit", "fiber_manager_init failed");
-  if (H->setup) H->setup();
   const long defer_from = cfg_get("defer_from", MAX_FIBERS);
   // create every fiber before any of them can run (handles must exist when actors start)
   for (int i = 0; i < g_case.n_fibers && i < defer_from; i++) rt_create(i);
+  // objects are initialised after the fibers exist (so harnesses can watch fiber words) but before any of them can run
+  if (H->setup) H->setup();
   for (int i = 0; i < g_case.n_fibers && i < defer_from; i++) fiber_manager_schedule(fiber_manager_get(), rt_fibers[i]);
   // park the main fiber for good; the verdict is reached at quiescence
   fiber_manager_set_and_wait(fiber_manager_get(), &main_slot, (void*)1);
